@@ -332,10 +332,30 @@ def nontrivial(c, x):
     return False
 
 
+def _sequel(c):
+    """another object of the same class with other content (for vars-only objects: another set of attributes)"""
+    v = list(c["content"])
+    if c["kind"] == "VarsOnly":
+        v2 = v[:1] if len(v) >= 2 else [*v, "s1", ("s", 2)][:3]
+    else:
+        v2 = [("sequel", i) for i, _ in enumerate(v)]
+    return dict(c, content=v2)
+
+
 def check(c, col):
+    _check(c, col, clear=True)
+    if c["cat"] in ("structured", "namedtuple"):
+        # the same class again, caches warm: what was learnt from the first object must not decide what the second yields
+        _check(_sequel(c), col, clear=False, after=c)
+
+
+def _check(c, col, clear=True, after=None):
     case_j = _jsonable(c)
+    if after is not None:
+        case_j["after"] = _jsonable(after)
     for fn_name in ("iteritems", "itervalues"):
-        tl.clear_all()
+        if clear:
+            tl.clear_all()
         x, exp_items, exp_values, re_iter, els = build(c)
         before = snapshot(x) if re_iter else None
         col.ev()
@@ -380,6 +400,12 @@ def run_shard(shard, col):
 
 
 def replay(clause, case_j, col):
+    if case_j.get("after"):
+        a = dict(case_j["after"])
+        if a["cat"] != "text":
+            a["content"] = eval(a["content"])  # noqa: S307
+        check(a, col)
+        return
     c = {"cat": case_j["cat"], "kind": case_j["kind"], "content": case_j["content"]}
     if c["cat"] != "text":
         c["content"] = eval(c["content"])  # noqa: S307
